@@ -176,6 +176,19 @@ class Controller:
 _CTRL = None
 
 
+def is_shim_error(e):
+    """did this exception come out of the cooperative shims themselves (an API of threading / queue they do not provide,
+    an internal inconsistency) rather than out of the code under test?  Such a run says nothing about the scheduler."""
+    import traceback
+    if isinstance(e, (Abort, Deadlock)):
+        return False
+    tb = traceback.extract_tb(e.__traceback__)
+    if tb and tb[-1].filename.endswith("coop.py") and not isinstance(e, (_real_queue.Empty, _real_queue.Full)):
+        return True
+    msg = str(e)
+    return isinstance(e, (AttributeError, TypeError)) and any(n in msg for n in ("CoQueue", "CoThread", "CoRLock", "CoLock", "CoEvent", "CoSemaphore", "CoSimpleQueue"))
+
+
 def controller():
     return _CTRL
 
@@ -194,8 +207,17 @@ class CoRLock:
         self.owner = None
         self.count = 0
 
+    reentrant = True
+
     def _free_for(self, st):
-        return self.owner is None or self.owner is st
+        return self.owner is None or (self.reentrant and self.owner is st)
+
+    def locked(self):
+        return self.owner is not None
+
+    def _is_owned(self):
+        c = _CTRL
+        return self.owner is not None and (c is None or self.owner is c.current or self.owner == "setup")
 
     def acquire(self, blocking=True, timeout=-1):
         c = _CTRL
@@ -251,12 +273,48 @@ class CoRLock:
         self.release()
 
 
+class CoLock(CoRLock):
+    """threading.Lock: a second acquisition by the owner blocks for ever (reported as a deadlock)"""
+    reentrant = False
+
+    def release(self):
+        # a plain Lock may be released by any thread
+        c = _CTRL
+        st = c.current if c else None
+        if self.owner is None:
+            raise RuntimeError("release unlocked lock")
+        if self.owner == "setup" or st is None:
+            self.owner, self.count = None, 0
+            return
+        owner = self.owner
+        self.owner, self.count = None, 0
+        if self.name in owner.held:
+            owner.held.remove(self.name)
+        c.trace.append((st.tid, "rel", self.name))
+        c.yield_point("rel", self.name)
+
+
 class CoQueue:
     def __init__(self, maxsize=0):
         self.items = []
         self.unfinished = 0
+        self.maxsize = maxsize
+
+    def get_nowait(self):
+        return self.get(block=False)
+
+    def put_nowait(self, item):
+        return self.put(item, block=False)
+
+    def full(self):
+        return 0 < self.maxsize <= len(self.items)
 
     def put(self, item, block=True, timeout=None):
+        if self.full():
+            c0 = _CTRL
+            if not block or not (c0 and c0.current):
+                raise _real_queue.Full
+            c0.block_until(lambda: not self.full(), "queue.put")
         self.items.append(item)
         self.unfinished += 1
         c = _CTRL
@@ -277,6 +335,8 @@ class CoQueue:
         return item
 
     def task_done(self):
+        if self.unfinished <= 0:
+            raise ValueError("task_done() called too many times")
         self.unfinished -= 1
         c = _CTRL
         if c and c.current:
@@ -299,21 +359,118 @@ class CoQueue:
         return not self.items
 
 
+class CoSimpleQueue(CoQueue):
+    """queue.SimpleQueue: no task tracking"""
+    def __init__(self):
+        super().__init__(0)
+
+    def task_done(self):
+        raise AttributeError("'SimpleQueue' object has no attribute 'task_done'")
+
+    def join(self):
+        raise AttributeError("'SimpleQueue' object has no attribute 'join'")
+
+
+class CoEvent:
+    def __init__(self):
+        self._flag = False
+
+    def is_set(self):
+        return self._flag
+
+    isSet = is_set
+
+    def set(self):
+        self._flag = True
+        c = _CTRL
+        if c and c.current:
+            c.yield_point("evset")
+
+    def clear(self):
+        self._flag = False
+
+    def wait(self, timeout=None):
+        c = _CTRL
+        if c and c.current:
+            if c.current.held:
+                c.wait_violations.append(("Event.wait", list(c.current.held)))
+            c.yield_point("evwait?")
+            if not self._flag:
+                c.block_until(lambda: self._flag, "event.wait")
+        return self._flag
+
+
+class CoSemaphore:
+    def __init__(self, value=1):
+        self._value = value
+
+    def acquire(self, blocking=True, timeout=None):
+        c = _CTRL
+        if c and c.current:
+            c.yield_point("sem?")
+            if self._value <= 0:
+                if not blocking:
+                    return False
+                c.block_until(lambda: self._value > 0, "semaphore")
+        elif self._value <= 0:
+            raise RuntimeError("setup code would block on a semaphore")
+        self._value -= 1
+        return True
+
+    def release(self, n=1):
+        self._value += n
+        c = _CTRL
+        if c and c.current:
+            c.yield_point("semrel")
+
+    __enter__ = acquire
+
+    def __exit__(self, *a):
+        self.release()
+
+
 class CoThread:
-    def __init__(self, group=None, target=None, name=None, args=(), kwargs=None, daemon=None):
-        self.target, self.args, self.kwargs = target, args, kwargs or {}
+    """threading.Thread under the controller (also usable as a base class overriding run())"""
+    def __init__(self, group=None, target=None, name=None, args=(), kwargs=None, *, daemon=None):
+        self._target, self._args, self._kwargs = target, tuple(args), dict(kwargs or {})
         self.daemon = daemon
         self.name = name or "worker"
         self.st = None
+        self.ident = None
+        self.native_id = None
+
+    # the attributes older code reads
+    target = property(lambda self: self._target)
+
+    def run(self):
+        if self._target is not None:
+            self._target(*self._args, **self._kwargs)
 
     def start(self):
+        if self.st is not None:
+            raise RuntimeError("threads can only be started once")
         c = _CTRL
-        self.st = c.new_thread(lambda: self.target(*self.args, **self.kwargs), self.name)
+        self.st = c.new_thread(self.run, self.name)
+        self.ident = self.native_id = 10_000 + self.st.tid
         if c.current:
             c.yield_point("spawn", self.st.tid)
 
+    def setDaemon(self, d):  # noqa: N802
+        self.daemon = d
+
+    def isDaemon(self):  # noqa: N802
+        return bool(self.daemon)
+
+    def getName(self):  # noqa: N802
+        return self.name
+
+    def setName(self, n):  # noqa: N802
+        self.name = n
+
     def join(self, timeout=None):
         c = _CTRL
+        if self.st is None:
+            raise RuntimeError("cannot join thread before it is started")
         if c.current:
             if c.current.held:
                 c.wait_violations.append(("Thread.join", list(c.current.held)))
@@ -327,12 +484,16 @@ class CoThread:
 shim_threading = types.ModuleType("threading")
 shim_threading.__dict__.update({k: v for k, v in vars(_real_threading).items() if not k.startswith("__")})
 shim_threading.RLock = CoRLock
-shim_threading.Lock = CoRLock
+shim_threading.Lock = CoLock
 shim_threading.Thread = CoThread
+shim_threading.Event = CoEvent
+shim_threading.Semaphore = CoSemaphore
+shim_threading.BoundedSemaphore = CoSemaphore
 
 shim_queue = types.ModuleType("queue")
 shim_queue.__dict__.update({k: v for k, v in vars(_real_queue).items() if not k.startswith("__")})
 shim_queue.Queue = CoQueue
+shim_queue.SimpleQueue = CoSimpleQueue
 
 
 def install():
@@ -398,4 +559,22 @@ def pct_chooser(rng, nthreads_hint=8, depth=3, length_hint=400):
             cur = max(tids, key=lambda t: prios[t])
             prios[cur] = rng.random() * 0.5
         return max(tids, key=lambda t: prios[t])
+    return choose
+
+
+def pause_chooser(victim, at, inner):
+    """one long preemption: thread `victim` runs first for `at` of its scheduling points, is then suspended while everybody
+    else runs (as `inner` decides) until they are finished or blocked, and only then continues.  This is the schedule that
+    exposes read-modify-write windows (a whole call of another thread fits into a window a few steps wide), which uniform
+    random choice practically never produces."""
+    n = {"v": 0}
+
+    def choose(tids, ctrl):
+        if victim in tids and n["v"] < at:
+            n["v"] += 1
+            return victim
+        others = [t for t in tids if t != victim]
+        if others:
+            return inner(others, ctrl)
+        return victim
     return choose
